@@ -569,7 +569,11 @@ var vCts = []string{"application/json", "application/did+json", "application/did
 	"application/json/extra", "application/json; charset", "application", "application/json; a=1; a=2", "application/ld+json", "*/*", "application/json, text/html"}
 
 func (g *vGen) location(self string) string {
-	host := g.pick([]string{self, self, "b.verif.test:1002", "c.verif.test:1003", "evil.example", "127.0.0.1", "127.0.0.1:8080", "[::1]", "169.254.169.254", "localhost:1234", "user@" + self, "EVIL.example:443"})
+	otherPort := self + ":8444"
+	if i := strings.LastIndex(self, ":"); i > 0 && !strings.HasSuffix(self, "]") {
+		otherPort = self[:i] + ":8444"
+	}
+	host := g.pick([]string{self, self, otherPort, "b.verif.test:1002", "c.verif.test:1003", "evil.example", "127.0.0.1", "127.0.0.1:8080", "[::1]", "169.254.169.254", "localhost:1234", "user@" + self, "EVIL.example:443"})
 	scheme := g.pick([]string{"https", "https", "https", "http", "http", "HTTPS", "Http"})
 	path := g.pick([]string{"/did.json", "/x/did.json", "/.well-known/did.json", "/a/b", "", "/", "/a%2Fb", "/a?x=1", "/é"})
 	switch x := g.r.Intn(20); {
